@@ -305,7 +305,7 @@ func (oc *Outcome) Finish(kf *KnownFindings, verifDir string) int {
 		}
 	}
 	samples := sampleObligations(merged, 14)
-	ctlFired, ctlSilent, ctlSkipped, ctlFailed := 0, 0, 0, 0
+	ctlFired, ctlSilent, ctlSkipped, ctlFailed, ctlMissed := 0, 0, 0, 0, 0
 	for _, c := range oc.Controls {
 		switch c.Outcome {
 		case "fired":
@@ -314,6 +314,8 @@ func (oc *Outcome) Finish(kf *KnownFindings, verifDir string) int {
 			ctlSilent++
 		case "skipped":
 			ctlSkipped++
+		case "missed-as-documented":
+			ctlMissed++
 		default:
 			ctlFailed++
 		}
@@ -354,7 +356,7 @@ func (oc *Outcome) Finish(kf *KnownFindings, verifDir string) int {
 		"packages":            oc.Packages,
 		"functions_analysed":  oc.Functions,
 		"configs":             oc.Configs,
-		"controls":            map[string]any{"fired": ctlFired, "silent": ctlSilent, "skipped": ctlSkipped, "failed": ctlFailed, "results": oc.Controls},
+		"controls":            map[string]any{"fired": ctlFired, "silent": ctlSilent, "skipped": ctlSkipped, "documented_misses": ctlMissed, "failed": ctlFailed, "results": oc.Controls},
 		"audited":             audited,
 		"known_findings":      known,
 		"violating":           violations,
@@ -384,8 +386,8 @@ func (oc *Outcome) Finish(kf *KnownFindings, verifDir string) int {
 		fmt.Fprintln(os.Stderr, "cannot write evidence:", err)
 		return 2
 	}
-	fmt.Printf("%s %s: %d obligations (%d discharged, %d audited, %d known findings, %d violations), %d controls (%d fired, %d silent, %d skipped, %d failed), configs=%v, %.1fs\n",
-		oc.Property, oc.Tier, len(merged), ndis, naud, nknown, nviol, len(oc.Controls), ctlFired, ctlSilent, ctlSkipped, ctlFailed, oc.Configs, oc.Wall.Seconds())
+	fmt.Printf("%s %s: %d obligations (%d discharged, %d audited, %d known findings, %d violations), %d controls (%d fired, %d silent, %d skipped, %d documented misses, %d failed), configs=%v, %.1fs\n",
+		oc.Property, oc.Tier, len(merged), ndis, naud, nknown, nviol, len(oc.Controls), ctlFired, ctlSilent, ctlSkipped, ctlMissed, ctlFailed, oc.Configs, oc.Wall.Seconds())
 	for _, c := range oc.Controls {
 		if c.Outcome == "FAILED" {
 			fmt.Printf("  CONTROL-FAILED %s (%s): %s\n", c.Name, c.Expect, c.Detail)
